@@ -6,7 +6,7 @@ rewrites lean/OrdModel/Generated/<Name>.lean.  It returns a small JSON-able summ
 copied into the evidence file.  Theorem modules import the generated file, so a changed table
 breaks (or re-validates) the proof obligations that mention it on the next `lake build`.
 """
-import importlib, os, sys
+import importlib, os, re, sys
 
 VERIF = os.path.dirname(os.path.dirname(os.path.abspath(__file__)))
 REPO = os.environ.get("VERIF_REPO", "/repo")
@@ -15,6 +15,56 @@ GEN = os.path.join(VERIF, "lean", "OrdModel", "Generated")
 
 class ShapeError(Exception):
     pass
+
+
+def strip_comments(src):
+    """Remove `//` line comments (string- and char-literal aware, raw strings included) so that
+    adding, removing or rewording a comment never changes what an extractor sees.  A line that
+    held only a comment disappears entirely; a trailing comment is cut together with the blanks
+    before it.  Block comments are rare in ord and are removed too."""
+    out, i, n = [], 0, len(src)
+    while i < n:
+        c = src[i]
+        if c == '"':
+            j = i + 1
+            while j < n and src[j] != '"':
+                j += 2 if src[j] == "\\" else 1
+            out.append(src[i:j + 1]); i = j + 1
+        elif c == "r" and re.match(r'r#*"', src[i:i + 8]) and (i == 0 or not (src[i - 1].isalnum() or src[i - 1] == "_")):
+            m = re.match(r'r(#*)"', src[i:])
+            end = src.find('"' + m.group(1), i + m.end())
+            end = n if end < 0 else end + 1 + len(m.group(1))
+            out.append(src[i:end]); i = end
+        elif c == "'":
+            m = re.match(r"'(\\.[^']*|[^'\\])'", src[i:])
+            if m:
+                out.append(m.group(0)); i += m.end()
+            else:
+                out.append(c); i += 1          # lifetime
+        elif src.startswith("//", i):
+            j = src.find("\n", i)
+            j = n if j < 0 else j
+            # cut blanks before the comment
+            while out and out[-1] and out[-1][-1] in " \t" and len(out[-1]) == 1:
+                out.pop()
+            k = len(out)
+            whole_line = (not out) or out[-1].endswith("\n")
+            i = j + 1 if (whole_line and j < n) else j
+        elif src.startswith("/*", i):
+            depth, j = 1, i + 2
+            while j < n and depth:
+                if src.startswith("/*", j): depth += 1; j += 2
+                elif src.startswith("*/", j): depth -= 1; j += 2
+                else: j += 1
+            i = j
+        else:
+            out.append(c); i += 1
+    return "".join(out)
+
+
+def read_src(path):
+    """source text as the extractors see it: comments removed"""
+    return strip_comments(open(path).read())
 
 
 def write_if_changed(path, text):
